@@ -59,6 +59,10 @@ class ParticleGibbsSubtreeSampler(ParticleGibbsTreeSampler):
             if label != outlier_node_name:
                 nodes.append(label)
 
+        # Every data point is an outlier: there is no clone to pick a subtree from, update the whole tree
+        if len(nodes) == 0:
+            return super().sample_tree(tree)
+
         subtree_root_child = self._rng.choice(nodes)
 
         subtree_root = tree.get_parent(subtree_root_child)
